@@ -707,6 +707,18 @@ pub fn exec(lines: &[String], out: &mut Out, scratch: &Path) {
 }
 
 fn run_on(inst: &Inst, method: &str, params: &Value) -> (Resp, Vec<String>) {
+    let t0 = std::time::Instant::now();
+    if std::env::var("VERIF_DEBUG").is_ok() {
+        eprintln!("call {} {}", method, params.to_string().chars().take(100).collect::<String>());
+    }
+    let r = run_on_inner(inst, method, params);
+    if std::env::var("VERIF_DEBUG").is_ok() && t0.elapsed().as_millis() > 500 {
+        eprintln!("slow call {} {} ms", method, t0.elapsed().as_millis());
+    }
+    r
+}
+
+fn run_on_inner(inst: &Inst, method: &str, params: &Value) -> (Resp, Vec<String>) {
     v::take_events();
     v::set_enabled(true);
     let r = inst.call(method, params.clone());
@@ -1565,4 +1577,154 @@ fn check_estimate(ctx: &Ctx, events: &[String], r: &Resp, out: &mut Out) {
             out.oracle_fail(&case, "estimate", &format!("{} simulations for one estimate", probes.len()));
         }
     }
+}
+
+
+// ------------------------------------------------------------------------------------------------- suite L
+
+/// Suite L: every RPC method is run single-threaded with the lock tracer on; the sequence of lock operations of
+/// each call is one *program* (the translator turns the set of distinct programs into `Gen/LockTraces.lean`).
+pub fn exec_locks(lines: &[String], out: &mut Out, scratch: &Path, out_dir: &Path) {
+    eng::configure("regtest", true);
+    let rt = eng::runtime();
+    let mut ctx: Option<Ctx> = None;
+    let mut n_inst = 0u64;
+    let mut programs: BTreeMap<String, BTreeSet<String>> = BTreeMap::new(); // program text -> methods that showed it
+    let mut record = |method: &str, events: &[String]| {
+        // lock name -> short type name; several locks of one type are numbered by address
+        let mut ops = Vec::new();
+        for e in events {
+            let w: Vec<&str> = e.split(' ').collect();
+            if w.len() >= 5 && w[0] == "L" && (w[3] == "acq" || w[3] == "rel") {
+                ops.push(format!("{}:{}:{}", if w[3] == "rel" { "x" } else { w[2] }, w[1], w[w.len() - 1]));
+            }
+        }
+        if !ops.is_empty() {
+            programs.entry(ops.join(" ")).or_default().insert(method.to_string());
+        }
+    };
+    let all_queries = |c: &mut Ctx, rec: &mut dyn FnMut(&str, &[String])| {
+        let top = c.height.unwrap_or(0);
+        let some_hash = c.known_hashes.last().cloned().unwrap_or(h256(1));
+        let some_addr = c.known_addrs.iter().next().cloned().unwrap_or(format!("{:?}", Address::repeat_byte(1)));
+        let bh = c.main.call("eth_getBlockByNumber", json!(["latest", false])).ok.and_then(|b| b["hash"].as_str().map(|s| s.to_string())).unwrap_or(h256(1));
+        let call = json!({"from": some_addr, "to": some_addr, "data": "0x00"});
+        let qs: Vec<(&str, Value)> = vec![
+            ("brc20_version", json!([])),
+            ("eth_blockNumber", json!([])),
+            ("eth_getBlockByNumber", json!(["latest", true])),
+            ("eth_getBlockByNumber", json!(["pending", false])),
+            ("eth_getBlockByHash", json!([bh, true])),
+            ("eth_getTransactionCount", json!([some_addr, "latest"])),
+            ("eth_getBlockTransactionCountByNumber", json!([format!("0x{:x}", top)])),
+            ("eth_getBlockTransactionCountByHash", json!([bh])),
+            ("eth_getLogs", json!([{"fromBlock": format!("0x{:x}", top)}])),
+            ("eth_call", json!([call])),
+            ("eth_callMany", json!([[call.clone(), call.clone()]])),
+            ("eth_estimateGas", json!([call])),
+            ("eth_estimateGasMany", json!([[call.clone()]])),
+            ("eth_getStorageAt", json!([some_addr, "0x0"])),
+            ("eth_getCode", json!([some_addr])),
+            ("eth_getTransactionReceipt", json!([some_hash])),
+            ("debug_traceTransaction", json!([some_hash])),
+            ("debug_getBlockTraceString", json!([format!("{}", top)])),
+            ("debug_getBlockTraceHash", json!([format!("{}", top)])),
+            ("eth_getTransactionByHash", json!([some_hash])),
+            ("eth_getTransactionByBlockNumberAndIndex", json!([top, 0])),
+            ("eth_getTransactionByBlockHashAndIndex", json!([bh, 0])),
+            ("txpool_content", json!([])),
+            ("txpool_contentFrom", json!([some_addr])),
+            ("debug_getRawHeader", json!([format!("{}", top)])),
+            ("debug_getRawHeader", json!([format!("\"{}\"", bh)])),
+            ("debug_getRawBlock", json!([format!("{}", top)])),
+            ("debug_getRawReceipts", json!([format!("{}", top)])),
+            ("brc20_balance", json!(["5120aa", "ordi"])),
+            ("brc20_getTxReceiptByInscriptionId", json!(["i0"])),
+            ("brc20_getInscriptionIdByTxHash", json!([some_hash])),
+            ("brc20_getInscriptionIdByContractAddress", json!([some_addr])),
+            ("eth_chainId", json!([])),
+            ("eth_getBalance", json!([some_addr, "latest"])),
+            ("net_version", json!([])),
+            ("web3_clientVersion", json!([])),
+            ("eth_gasPrice", json!([])),
+            ("eth_syncing", json!([])),
+        ];
+        // executing reads wait (up to 5 s) for the block under construction: mid-block they are traced once per case
+        let mid_block = c.main.state()["lbi"]["waiting_tx_count"].as_u64().unwrap_or(0) != 0;
+        for (m, p) in qs {
+            let executing = matches!(m, "eth_call" | "eth_callMany" | "eth_estimateGas" | "eth_estimateGasMany" | "brc20_balance");
+            if executing && mid_block {
+                if c.twin_mode != 0 || m != "eth_call" {
+                    continue;
+                }
+                c.twin_mode = 1; // remembered: traced once
+            }
+            let (_, ev) = run_on(&c.main, m, &p);
+            rec(m, &ev);
+        }
+    };
+    let mut covered: BTreeSet<String> = BTreeSet::new();
+    for line in lines {
+        let op = line.split(' ').next().unwrap_or("").to_string();
+        if op == "case" {
+            if let Some(mut c) = ctx.take() {
+                c.main.close();
+                c.twin.close();
+            }
+            let main = new_inst(scratch, &mut n_inst, &rt);
+            let twin = new_inst(scratch, &mut n_inst, &rt);
+            ctx = Some(Ctx {
+                main, twin, twin_mode: 0, rt: rt.clone(), scratch: scratch.to_path_buf(), n_inst,
+                case: line.split(' ').nth(1).unwrap_or("?").to_string(), history: Vec::new(), labels: BTreeMap::new(),
+                known_addrs: BTreeSet::new(), known_hashes: Vec::new(), receipts: BTreeMap::new(), insc_of: BTreeMap::new(),
+                height: None, chain_id: v::CONFIG.read().chain_id, dup_blocks: BTreeSet::new(), kinds: BTreeMap::new(),
+                inscribed_len: BTreeMap::new(),
+            });
+            out.case(line.split(' ').nth(1).unwrap_or("?"));
+            continue;
+        }
+        let Some(c) = ctx.as_mut() else { continue };
+        let f = kv(line);
+        if op == "reopen" {
+            c.main.reopen();
+            continue;
+        }
+        if let Some((method, params)) = params_for(c, &op, &f) {
+            let (resp, ev) = run_on(&c.main, &method, &params);
+            record(&method, &ev);
+            covered.insert(method.clone());
+            if err_class(&resp) == "ok" {
+                let mut dummy = Out::new(out_dir, "L.tmp");
+                on_accepted(c, &op, &f, &resp, &mut dummy);
+                if matches!(op.as_str(), "fin" | "mine" | "init" | "reorg" | "clear") {
+                    c.height = latest_height(&c.main);
+                }
+            }
+            // every query, in whatever state the instance is now (mid-block included)
+            if matches!(op.as_str(), "fin" | "deploy" | "transact" | "reorg" | "commit") {
+                all_queries(c, &mut record);
+            }
+        }
+        out.count(&op);
+    }
+    if let Some(mut c) = ctx.take() {
+        c.main.close();
+        c.twin.close();
+    }
+    let mut text = String::new();
+    for (prog, methods) in &programs {
+        text.push_str(&format!("{} | {}\n", methods.iter().cloned().collect::<Vec<_>>().join(","), prog));
+    }
+    std::fs::write(out_dir.join("L.traces"), text).unwrap();
+    // the method table of the running module, for tools/gen_methods.py
+    {
+        let dir = scratch.join("names");
+        let mut inst = new_inst(&dir, &mut n_inst, &rt);
+        let mut names = inst.method_names();
+        names.sort();
+        std::fs::write(out_dir.join("methods.txt"), names.join("\n") + "\n").unwrap();
+        inst.close();
+    }
+    out.line("traces", &format!("{} distinct programs", programs.len()));
+    let _ = std::fs::remove_dir_all(scratch);
 }
